@@ -69,8 +69,11 @@ def ref_row_pattern(n_extra):
     return r"^\s*" + r"\s+".join(cols) + r"(?=\s|$)\s*([\s+\-.0-9eE]*)$"
 
 
+CANON = {}  # text of the row pattern the carrier compiles -> the name the contract uses for "the row test" (see _re_compile)
+
+
 def tag(method, pattern):
-    return z3.StringVal(method + ":" + pattern)
+    return z3.StringVal(method + ":" + CANON.get(pattern, pattern))
 
 
 ASTR_MODEL = ("str-model: lines/tokens are abstract strings; isspace, removesuffix, startswith, s[n:], len are uninterpreted functions of them; "
@@ -157,7 +160,11 @@ def _re_compile(eng, args, kwargs):
         # is_row in the contract means "matches the SWC line grammar written in this file"; the carrier's own pattern must be it
         ex = eng.visible_vars().get("extras")
         n_extra = len(ex.items) if isinstance(ex, PList) and ex.items is not None else 0
-        eng.prove("parse_swc/regex/row-pattern-is-the-swc-line-grammar", pat.pattern == ref_row_pattern(n_extra), "definition")
+        # its TEXT is free; its shape (group c+1 = column c) is checked here and what it accepts by the obligations C02/regex/* (contracts/regex_facts.py)
+        from contracts.regex_facts import row_shape_ok
+
+        eng.prove("parse_swc/regex/row-pattern-has-the-swc-line-shape", row_shape_ok(pat.pattern, n_extra, pat.flags), "definition")
+        CANON[pat.pattern] = ref_row_pattern(n_extra)
     return pat
 
 
@@ -1208,3 +1215,10 @@ def register(R):  # noqa: F811
     _register_0(R)
     register_read(R)
     register_read_plumbing(R)
+
+
+def regex_facts():
+    """regex-language facts of this property (contracts/regex_facts.py): obligations C02/regex/<label>"""
+    from contracts import regex_facts as RF
+
+    return RF.facts("C02")
